@@ -4,9 +4,11 @@ from vlib import common
 
 def _matches(tags, chosen):
     if chosen == "-":
-        return len(tags.split(","))
+        return 0 if tags == "-" else len(tags.split(","))
+    if tags == "-":
+        return 0
     ch = set(chosen.split(","))
-    return sum(1 for t in tags.split(",") if t != "0" and t in ch)
+    return sum(1 for t in tags.split(",") if t in ch)
 
 
 def key_fn(case, obs, verdict):
@@ -14,7 +16,7 @@ def key_fn(case, obs, verdict):
     f = case.split(" ")
     o = obs.split(" ")
     kind = f[1]
-    filt = "nofilter" if f[5] == "-" else ("filter-matches-nothing" if _matches(f[4], f[5]) == 0 else "filter")
+    filt = "no-entries" if f[4] == "-" else "nofilter" if f[5] == "-" else ("filter-matches-nothing" if _matches(f[4], f[5]) == 0 else "filter")
     bounds = ("limit" if f[2] != "0" else "") + ("passes" if f[3] != "0" else "") or "unbounded"
     s, p = " ".join(o[1:5]), " ".join(o[6:10])
     if s != p:
